@@ -401,3 +401,91 @@ def assert_statement(k: int) -> int:
 
 def comparison_chain_mixed(a: int, b: int) -> int:
     return (1 if a < b <= 2 else 0) + (10 if a == b != 0 else 0) + (100 if not a else 0)
+
+
+def match_class_patterns(k: int) -> int:
+    o = Derived(k) if k > 0 else (Base(k) if k == 0 else Box(1))
+    match o:
+        case Derived():
+            return 1
+        case Base():
+            return 2
+        case _:
+            return 3
+
+
+def match_value_patterns(k: int) -> int:
+    match k:
+        case 0:
+            return 10
+        case 1 | 2:
+            return 20
+        case _:
+            return 30
+
+
+def isinstance_tuple_and_issubclass(k: int) -> int:
+    o = Derived(1) if k > 0 else Box(2)
+    a = 1 if isinstance(o, (Base, Flag)) else 0
+    b = 10 if issubclass(type(o), Base) else 0
+    return a + b
+
+
+def del_and_rebind(k: int) -> int:
+    x = k
+    y = x + 1
+    del x
+    x = y * 2
+    return x
+
+
+def early_return_in_with(k: int) -> int:
+    s = Sup(0)
+    with s:
+        if k > 0:
+            return 1
+    return 2
+
+
+def loop_over_constant_tuple(k: int) -> int:
+    total = 0
+    for v in (1, 2, 3):
+        if v == k:
+            continue
+        total += v
+    return total
+
+
+def nested_try_return_in_finally_order(k: int) -> int:
+    log = 0
+    try:
+        try:
+            if k > 0:
+                return 100 + log
+        finally:
+            log += 1
+        log += 10
+    finally:
+        log += 100
+    return log
+
+
+def optional_chaining_style(k: int) -> int:
+    b = Base(k) if k >= 0 else None
+    if b is not None and b.v > 1:
+        return 1
+    if b is None or b.v == 0:
+        return 2
+    return 3
+
+
+def bytes_in_and_index_error(k: int) -> int:
+    s = b"hello"
+    try:
+        return s[k + 3]
+    except IndexError:
+        return -1
+
+
+def int_conversions(k: int, f: bool) -> int:
+    return int(f) + bool(k) * 10 + (k == 0) * 100
